@@ -297,8 +297,21 @@ def run_job(args):
             if spec.concrete is not None and c.obs is not None and \
                     (job.path_index % spec.witness_every == 0 or job.path_index <= 3):
                 r = e._check()
-                if r == z3.sat:
-                    model = e.solver.model()
+                model = e.solver.model() if r == z3.sat else None
+                # pin nondeterministic stubs (log2) to the behaviour of the real environment
+                for _ in range(4):
+                    if model is None:
+                        break
+                    ref = stubs.witness_refinement(model)
+                    if not ref or all(z3.is_true(model.eval(x, model_completion=True)) for x in ref):
+                        break
+                    r = e._check(*ref)
+                    model = e.solver.model() if r == z3.sat else None
+                else:
+                    model = None
+                if model is None:
+                    job.witness_skipped = getattr(job, 'witness_skipped', 0) + 1
+                else:
                     inputs = {k: model_value(model, v) for k, v in e.inputs.items()}
                     want = model_value(model, c.obs)
                     try:
